@@ -17,6 +17,14 @@ package main
 //             udp       StartTLS over kcp, real PacketServer on 127.0.0.1:0 + upstream.Packet (thorough)
 //             wss       HTTPS websocket, real HttpServer + upstream.Http (thorough)
 //             ws        StartTLS over a plain websocket, real HttpServer + upstream.Http (thorough)
+//             unix      StartTLS over a unix stream socket, real SocketServer unix://<path> + upstream.Socket (hostname -)
+//             unix+tls  TLS listener on a unix stream socket, real SocketServer unix+tls://<path> + upstream.Socket (hostname -)
+//             stdin     StartTLS over the standard streams, real IoServer stdin:// + upstream.InputOutput (hostname -)
+//             dns       StartTLS over the DNS tunnel, real DnsServer dns://127.0.0.1:<p> + upstream.Dns (hostname -)
+//             (the four host-less carriers name nothing a certificate could be issued for: a verifying client is
+//             refused on them, cells are generated with cinsecure=1 - they are about the SERVER's judgement of the client)
+//   every server kind of internal/server is reached on each of its paths: socket (tcp, unix / tcp+tls, unix+tls),
+//   packet (udp), stdio (stdin / stdin+tls), http (ws / wss), dns (dns; its TLS listener has no client in this code base)
 //   hostname  the host part of the upstream address (pipe: any; tcp*: localhost | 127.0.0.1; stdin: -)
 //   scert     good | nameonly | wronghost | untrusted | expired (24 h ago) | exp1m | exp1s | notyet | fresh
 //             (the last four: validity period placed relative to the moment of use, see c05_pki.go)
@@ -216,7 +224,9 @@ type c05Cell struct {
 }
 
 var (
-	c05Carriers = []string{"pipe", "tcp", "tcp+tls", "stdin+tls", "udp", "wss", "ws"}
+	c05Carriers = []string{"pipe", "tcp", "tcp+tls", "stdin+tls", "udp", "wss", "ws", "unix", "unix+tls", "stdin", "dns"}
+	// carriers whose upstream address has no host part: hostname token `-`
+	c05NoHostCarriers = []string{"stdin+tls", "unix", "unix+tls", "stdin", "dns"}
 	c05SCerts   = []string{"good", "nameonly", "wronghost", "untrusted", "expired", "exp1m", "exp1s", "notyet", "fresh", "sys"}
 	c05CCerts   = []string{"none", "good", "foreign", "expired", "exp1m", "exp1s", "notyet", "fresh", "sys"}
 )
@@ -234,7 +244,7 @@ func parseC05Cell(op string) (c05Cell, bool) {
 	} else if special {
 		// host forms (c05_hostforms.go): anything the user may write between scheme:// and :port
 		_, okURL := c05PassedHost(part, "4443")
-		return c, c.carrier != "stdin+tls" && okURL
+		return c, !c05in(c05NoHostCarriers, c.carrier) && okURL
 	}
 	switch c.carrier {
 	case "pipe":
@@ -245,7 +255,7 @@ func parseC05Cell(op string) (c05Cell, bool) {
 		if c.hostname != "localhost" && c.hostname != "127.0.0.1" {
 			return c, false
 		}
-	case "stdin+tls":
+	case "stdin+tls", "unix", "unix+tls", "stdin", "dns":
 		if c.hostname != "-" {
 			return c, false
 		}
@@ -394,18 +404,45 @@ func (authmatrixComp) exec1(op string) (string, string, string, bool) {
 		shutdown = func() { _ = hs.Shutdown() }
 		cu, _ := url.Parse(cell.carrier + "://" + c05Authority(hostPart, port) + "/ws")
 		ups = &upstream.Http{Address: addr.ProtoAddress{URL: *cu}}
-	case "stdin+tls":
+	case "unix", "unix+tls":
+		f, err := os.CreateTemp("", "verif-c05-*.sock")
+		if err != nil {
+			return "err server-startup", "", "startup-error", false
+		}
+		path := f.Name()
+		_ = f.Close()
+		_ = os.Remove(path)
+		st := server.NewSocketServer()
+		st.ServerConfig = srvCfg
+		st.Address = addr.ProtoAddress{URL: url.URL{Scheme: cell.carrier, Host: path}}
+		if err := st.Startup(channels); err != nil {
+			return "err server-startup", "", "startup-error", false
+		}
+		shutdown = func() { _ = st.Shutdown(); _ = os.Remove(path) }
+		ups = &upstream.Socket{Address: addr.ProtoAddress{URL: url.URL{Scheme: cell.carrier, Host: path}}}
+	case "dns":
+		ds := server.NewDnsServer()
+		ds.Domain = "example.org"
+		ds.ServerConfig = srvCfg
+		port := freePort("udp")
+		ds.Address = addr.MustParseAddress(fmt.Sprintf("dns://127.0.0.1:%d", port))
+		if err := ds.Startup(channels); err != nil {
+			return "timeout", "", "startup-error", false // port raced away: retried by Exec
+		}
+		shutdown = func() { _ = ds.Shutdown() }
+		ups = &upstream.Dns{Address: addr.MustParseAddress(fmt.Sprintf("dns://example.org?direct=false&dns=127.0.0.1:%d", port))}
+	case "stdin+tls", "stdin":
 		a, b := newBufPipe()
 		st := server.NewIoServer()
 		st.ServerConfig = srvCfg
-		su, _ := url.Parse("stdin+tls://")
+		su, _ := url.Parse(cell.carrier + "://")
 		st.Address = addr.ProtoAddress{URL: *su}
 		st.Input, st.Output = b, b
 		if err := st.Startup(channels); err != nil {
 			return "err server-startup", "", "startup-error", false
 		}
 		shutdown = func() { _ = a.Close(); _ = b.Close() }
-		cu, _ := url.Parse("stdin+tls://")
+		cu, _ := url.Parse(cell.carrier + "://")
 		ups = &upstream.InputOutput{Address: addr.ProtoAddress{URL: *cu}, Input: a, Output: a}
 	}
 	defer shutdown()
@@ -565,12 +602,47 @@ func c05AnchorNote(side, caTok, signer string) string {
 	return fmt.Sprintf(" [the peer's certificate was issued by %s; the %s is configured with %s]", what, side, conf)
 }
 
+// c05GenServerKinds: every server kind of internal/server on each of its paths (StartTLS / TLS listener) with
+// requireClientCert=1 against a client without certificate, with a foreign-CA certificate and with a proper one, and
+// with the requirement off - in EVERY tier: which configuration object a kind hands to the handshake (the full
+// ServerConfig or its embedded base Config, which never applies RequireClientCert) shows only here.
+func c05GenServerKinds(tier string, emit func(string)) {
+	type ck struct{ carrier, host string }
+	kinds := []ck{{"pipe", "server.test"}, {"tcp", "localhost"}, {"tcp+tls", "127.0.0.1"}, {"unix", "-"}, {"unix+tls", "-"},
+		{"udp", "127.0.0.1"}, {"stdin", "-"}, {"stdin+tls", "-"}, {"ws", "localhost"}, {"wss", "localhost"}, {"dns", "-"}}
+	for _, k := range kinds {
+		ins := 0
+		if k.host == "-" {
+			ins = 1
+		}
+		ccs := []string{"none", "foreign", "good"}
+		if tier == "thorough" && k.carrier != "dns" {
+			ccs = c05CCerts
+		}
+		for _, cc := range ccs {
+			emit(fmt.Sprintf("%s %s good %d A %s 1 A", k.carrier, k.host, ins, cc))
+		}
+		emit(fmt.Sprintf("%s %s good %d A none 0 A", k.carrier, k.host, ins))
+		if k.host != "-" {
+			// the same with a client that does not verify the server: the server's judgement must not depend on it
+			emit(fmt.Sprintf("%s %s good 1 A none 1 A", k.carrier, k.host))
+			emit(fmt.Sprintf("%s %s good 1 A foreign 1 A", k.carrier, k.host))
+		}
+		if k.carrier != "dns" {
+			// server configured with CA B: the A-certified client is the foreign one
+			emit(fmt.Sprintf("%s %s untrusted 1 B good 1 B", k.carrier, k.host))
+			emit(fmt.Sprintf("%s %s untrusted 1 B foreign 1 B", k.carrier, k.host))
+		}
+	}
+}
+
 func (authmatrixComp) Gen(r *Rand, tier string, emit func(string)) {
 	defer func() {
 		if c05pki != nil {
 			_ = os.RemoveAll(c05pki.dir)
 		}
 	}()
+	c05GenServerKinds(tier, emit)
 	c05GenHostForms(tier, emit)
 	anchorCarriers := [][2]string{{"pipe", "server.test"}, {"tcp", "localhost"}, {"tcp+tls", "127.0.0.1"}, {"stdin+tls", "-"}}
 	if tier == "thorough" {
